@@ -91,7 +91,10 @@ Proof. vm_compute. reflexivity. Qed.
 Example C51_example_hypotheses_hold :
   2 * ex_unit <= U64MAX /\ dttl_ok (Some 0%Z) /\ dttl_ok None /\
   Forall (@op_ok N) [OAdd [97] 1 5%Z; OSetLimit 0; OSetClock (-5)%Z].
-Proof. vm_compute. repeat split; try discriminate; repeat constructor; discriminate. Qed.
+Proof.
+  split; [vm_compute; discriminate|]. split; [vm_compute; discriminate|]. split; [exact I|].
+  repeat constructor. vm_compute. discriminate.
+Qed.
 
 (* Behaviour worth knowing (it is what the code does; model and specification agree on it):
    an add() that is rejected -- here because of a negative TTL -- still forgets the previous
